@@ -1,6 +1,6 @@
 """C03 — control flow, scoping, captures, includes: the structural clauses (partial)."""
 from engine import (Tracer, EdgeFacts, find_calls, find_aggs, field_accesses, AnchorMissing, leaf_str, leaf_call_is, pl_projs, pl_str, callee_def,
-                    callee_names, iter_operands, name_matches)
+                    callee_names, iter_operands, name_matches, TRANSPARENT_CALLS)
 import rrec
 from props.c02 import const_of
 
@@ -37,6 +37,7 @@ def run(ctx, rep):
         check_iter(crate, rep, cfg)
         check_exact_len(crate, rep, cfg)
         check_loopvar(crate, rep, cfg)
+        check_in_loop(crate, rep, cfg)
         check_incl(crate, rep, cfg)
         check_state_fields(crate, rep, cfg)
         check_jump(crate, rep, cfg)
@@ -644,6 +645,78 @@ def check_loopvar(crate, rep, cfg):
     rep.floor("C03.LOOPVAR", "loop attribute names rewritten by the parser [%s]" % cfg, len(found), 5)
 
 
+def check_in_loop(crate, rep, cfg):
+    """C03.LOOPVAR — `loop.*` means the innermost enclosing for loop wherever it is used inside that loop's body, including inside a
+    set block / filter section / component body nested in it (those only stop break/continue). So the parser's `is_in_loop` is a pure
+    membership test — is ANY enclosing body a for loop — and the rewrite of `loop.X` happens only under it."""
+    import json as _json
+    b = crate.one("parsing::parser::Parser::<'a>::is_in_loop")
+    rep.analysed(b)
+    bodies = crate.with_closures(b)
+    tr = Tracer(b, transparent=set(TRANSPARENT_CALLS) | {"core::slice::<impl [T]>::iter", "std::iter::Iterator::rev", "std::iter::Iterator::copied", "std::iter::Iterator::cloned"})
+    ret = tr.place({"l": 0, "p": []})
+    ok = bool(ret)
+    why = "no result"
+    for l in ret:
+        if not (l.kind == "call" and l.detail[0].endswith(("<impl [T]>::contains", "Iterator::any"))):
+            ok = False
+            why = "the answer is %s, not a membership test (contains / any) over the enclosing bodies" % leaf_str(l)
+            continue
+        rl = tr.operand(b.term(l.detail[2])["args"][0])
+        if not rl or not all(x.kind == "param" and x.detail == 1 and ".body_contexts" in x.projs for x in rl):
+            ok = False
+            why = "the membership test is not over self.body_contexts"
+    mentioned = set()
+
+    def walk(o):
+        if isinstance(o, dict):
+            for v in o.get("pagg") or []:
+                if "BodyContext::" in v:
+                    mentioned.add(v.rsplit("::", 1)[-1])
+            if o.get("k") == "agg" and str(o.get("adt", "")).endswith("BodyContext"):
+                mentioned.add(o.get("variant"))
+            for v in o.values():
+                walk(v)
+        elif isinstance(o, list):
+            for v in o:
+                walk(v)
+    for x in bodies:
+        for bb, idx, st in x.stmts():
+            walk(st)
+    if ok and mentioned != {"ForLoop"}:
+        ok = False
+        why = "the test looks at %s (only ForLoop decides)" % sorted(mentioned)
+    rep.add("C03.LOOPVAR", "C03.LOOPVAR:parser:in-loop-is-any-enclosing-for", ok, b.where(0), "Parser::is_in_loop is `body_contexts` contains/any ForLoop — a capture between the loop and "
+            "the use does not hide `loop.*`" + ("" if ok else " — VIOLATED: " + why))
+    # the rewrite is under is_in_loop()
+    n = 0
+    for pb in crate.in_files("parsing/parser.rs"):
+        if pb.kind == "const":
+            continue
+        tests = [(bb, lit, tt, ff) for bb, lit, tt, ff in str_tests(pb) if lit in LOOP_ATTRS]
+        if len({lit for _, lit, _, _ in tests}) < 5:
+            continue
+        gates = [bb for bb, t in pb.calls() if callee_def(t).endswith("Parser::<'a>::is_in_loop")]
+        for bb, lit, tt, ff in tests:
+            n += 1
+            g_ok = False
+            for g in gates:
+                nxt = pb.term(g).get("t")
+                sw = nxt
+                while sw is not None and pb.term(sw)["k"] == "goto":
+                    sw = pb.term(sw)["t"]
+                if sw is None or pb.term(sw)["k"] != "switch":
+                    continue
+                t = pb.term(sw)
+                zero = [tgt for v, tgt in t["targets"] if str(v) == "0"]
+                truthy = [x for x in pb.succ[sw] if x not in zero]
+                if len(truthy) == 1 and pb.dominates(truthy[0], bb) and truthy[0] != sw:
+                    g_ok = True
+            rep.add("C03.LOOPVAR", "C03.LOOPVAR:parser:loop.%s:only-in-a-loop" % lit, g_ok, pb.where(bb), "`loop.%s` is rewritten only on the true edge of is_in_loop()" % lit
+                    + ("" if g_ok else " — VIOLATED"))
+    rep.floor("C03.LOOPVAR", "loop attribute rewrites gated by is_in_loop [%s]" % cfg, n, 5)
+
+
 # --------------------------------------------------------------------------------------------------------------- INCL
 
 STATE_FIELDS = {
@@ -713,6 +786,7 @@ def check_incl(crate, rep, cfg):
     calls = [(bb, t) for bb, t in vm.calls(sorted(region)) if callee_def(t).endswith("::render_include")]
     ef = EdgeFacts(vm, crate)
     n_direct = n_capt = 0
+    ltr = Tracer(vm, transparent=set(TRANSPARENT_CALLS) | {"core::slice::<impl [T]>::last_mut", "core::slice::<impl [T]>::last", "std::option::Option::<T>::map"})
     for bb, t in calls:
         outl = vtr.operand(t["args"][-1])
         empty_truth = None
@@ -726,6 +800,13 @@ def check_incl(crate, rep, cfg):
                         pl = [l for l in vtr.operand(ct["args"][0]) if l.kind == "param"]
                         if pl and all(last_field(l.projs) == ".capture_buffers" for l in pl):
                             empty_truth = f[3]
+                    if f[0] == "variant" and f[1] == "std::option::Option" and f[4] and len(f[3]) == 1 and vm.dominates(tgt, bb) and tgt != sb:
+                        # `match capture_buffers.last_mut().map(take) { None => .., Some(buf) => .. }`: None <=> no capture open
+                        d = ef.single_def(vm.term(sb)["op"]["pl"]["l"]) if not vm.term(sb)["op"]["pl"]["p"] else None
+                        if d and d[3]["k"] == "discr":
+                            ll = [l for l in ltr.place(d[3]["pl"]) if l.kind == "param"]     # (flow-insensitive: take() results stored back)
+                            if ll and all(".capture_buffers" in l.projs for l in ll):
+                                empty_truth = (set(f[3]) == {"None"})
         to_output = bool(outl) and all(l.kind == "param" and "Write" in vm.local_ty(l.detail) for l in outl)
         if empty_truth is True and to_output:
             n_direct += 1
@@ -743,6 +824,13 @@ def check_incl(crate, rep, cfg):
         for bb, t in idxs:
             il = vtr.operand(t["args"][1])
             good = good and bool(il) and all(l.kind == "op" and l.detail[1] in ("Sub", "SubWithOverflow") for l in il)
+        if not idxs:
+            # the same through last_mut(): taken from and stored back through `capture_buffers.last_mut()` (at least twice: take, put back)
+            lms = [(bb, t) for bb, t in vm.calls(sorted(region)) if callee_def(t).endswith("<impl [T]>::last_mut")
+                   and (lambda ls: bool(ls) and all(".capture_buffers" in l.projs for l in ls))([l for l in ltr.operand(t["args"][0]) if l.kind == "param"])]
+            firsts = [1 for bb, t in vm.calls(sorted(region)) if callee_def(t).rsplit("::", 1)[-1] in ("first_mut", "first", "get_mut", "get", "iter_mut")
+                      and any(".capture_buffers" in l.projs for l in ltr.operand(t["args"][0]))]
+            good = len(lms) >= 2 and not firsts
         rep.add("C03.INCL", "C03.INCL:vm:include-innermost-capture", good, vm.where(idxs[0][0]) if idxs else vm.where(0), "the buffer used for a captured include is "
                 "capture_buffers[len - 1] (innermost), taken and stored back at the same index (%d accesses)" % len(idxs) + ("" if good else " — VIOLATED"))
 
